@@ -17,6 +17,8 @@ def kComponent : Nat := 1
 def kBlock : Nat := 2
 def kAssembly : Nat := 3
 def kCore : Nat := 4
+/-- `SpentFuelPool` / `ExcoreStructure` -/
+def kSfp : Nat := 5
 
 structure St where
   /-- `ArmiObject.parent` -/
@@ -36,11 +38,15 @@ structure St where
   typ : Nat → Nat
   next : Nat
   nextGrid : Nat
+  /-- `bool(obj)`: `ArmiObject.__bool__` is True, `components.NullComponent.__bool__` is False.  No structural edit
+  and no traversal of the code reads it -- except through Python's `filter(None, …)` / `if obj:` idioms, which is
+  why it is part of the state: the traversal theorems are stated for trees WITH falsy nodes. -/
+  truthy : Nat → Bool := fun _ => true
 
 def St.empty : St :=
   { parent := fun _ => none, kids := fun _ => [], loc := fun _ => none, grid := fun _ => none,
     owner := fun _ => none, kind := fun _ => 0, flags := fun _ => 0, typ := fun _ => 0,
-    next := 0, nextGrid := 0 }
+    next := 0, nextGrid := 0, truthy := fun _ => true }
 
 def setParent (s : St) (c : Nat) (v : Option Nat) : St :=
   { s with parent := fun x => if x = c then v else s.parent x }
@@ -51,9 +57,10 @@ def setLoc (s : St) (c : Nat) (v : Option Nat) : St :=
 
 /-- `Composite(name)` / `Component` / `HexBlock` constructor: no parent, no children, detached locator.
 `withGrid` : the harness gives assemblies and cores a spatialGrid owned by the object. -/
-def newNode (s : St) (kind flags typ : Nat) (withGrid : Bool) : St :=
+def newNode (s : St) (kind flags typ : Nat) (withGrid : Bool) (truthy : Bool := true) : St :=
   let n := s.next
   { s with
+    truthy := fun x => if x = n then truthy else s.truthy x
     parent := fun x => if x = n then none else s.parent x
     kids := fun x => if x = n then [] else s.kids x
     loc := fun x => if x = n then none else s.loc x
@@ -136,6 +143,17 @@ def insert (s : St) (p : Nat) (i : Int) (c : Nat) : St × Bool :=
 /-- `remove` (Block.remove = Composite.remove + cache/pitch bookkeeping) -/
 def remove (s : St) (p c : Nat) : St × Bool := cRemove s p c
 
+/-- `ExcoreStructure.add(obj, loc)` (`SpentFuelPool.add(assem)` picks `loc`, a cell of the pool's own grid, and
+calls it): `obj.spatialLocator = loc`, THEN `Composite.add` -- so a refused add has already moved the locator -/
+def excoreAdd (s : St) (p c : Nat) : St × Bool := cAdd (setLoc s c (s.grid p)) p c
+
+/-- `Core.removeAssembly(a, discharge)`: `self.remove(a)` (parent cleared, locator detached, taken off the list), then
+`if discharge and trackAssems and r.excore.get("sfp") is not None: sfp.add(a)`; `sfp = none` stands for any of the
+three conditions being false (purge / no tracking / no pool) -/
+def removeAssembly (s : St) (core a : Nat) (sfp : Option Nat) : St × Bool :=
+  let r := remove s core a
+  if r.2 then (match sfp with | none => r | some p => excoreAdd r.1 p a) else r
+
 /-- loop body shared by removeAll/setChildren: stop at the first exception -/
 def seqOps (f : St → Nat → St × Bool) (s : St) (l : List Nat) : St × Bool :=
   l.foldl (fun acc c => if acc.2 then f acc.1 c else acc) (s, true)
@@ -179,6 +197,48 @@ def iterChildren (s : St) (fuel : Nat) (deep : Bool) (g : Int) (chk : Nat → Bo
     Option (List Nat) :=
   if deep && decide (g > 1) then none else some (iterC s fuel deep g chk n)
 
+/-! ### traversals as the code spells them: Python `filter`, `predicate=None`, truthiness of nodes -/
+
+/-- Python's built-in `filter(function, iterable)`: with `function = None` the TRUTHY items are kept
+(`bool(item)`), otherwise the items for which `function(item)` is true. -/
+def pyFilter (truthy : Nat → Bool) : Option (Nat → Bool) → List Nat → List Nat
+  | none, l => l.filter truthy
+  | some f, l => l.filter f
+
+/-- `Composite._iterChildren(deep, generationNum, checker)` with its `yield from filter(checker, self)` spelled
+with Python's `filter`; `checker = none` is what the code would do if it handed `None` through (it never does,
+see `iterChildrenP`; `filterNone_drops_falsy` in Props shows that reading is wrong on trees with falsy nodes). -/
+def iterCpy (s : St) : Nat → Bool → Int → Option (Nat → Bool) → Nat → List Nat
+  | 0, _, _, _, _ => []
+  | f + 1, deep, g, chk, n =>
+    (if deep || g == 1 then pyFilter s.truthy chk (s.kids n) else []) ++
+    (if deep || decide (g > 1) then (s.kids n).flatMap (fun c => iterCpy s f deep (g - 1) chk c) else [])
+
+/-- `Composite.iterChildren(deep, generationNum, predicate)`: raises for `deep and generationNum > 1`;
+`if predicate is None: checker = lambda _: True else: checker = predicate`; then `_iterChildren`. -/
+def iterChildrenP (s : St) (fuel : Nat) (deep : Bool) (g : Int) (pred : Option (Nat → Bool)) (n : Nat) :
+    Option (List Nat) :=
+  if deep && decide (g > 1) then none
+  else some (iterCpy s fuel deep g (some (match pred with | none => fun _ => true | some p => p)) n)
+
+/-- `Composite.getChildren(deep, generationNum, includeMaterials=False, predicate)` = `list(iterChildren(…))` -/
+def getChildren (s : St) (fuel : Nat) (deep : Bool) (g : Int) (pred : Option (Nat → Bool)) (n : Nat) :
+    Option (List Nat) := iterChildrenP s fuel deep g pred n
+
+/-- one entry of `iterChildrenWithMaterials`: the child, or the child's material -/
+inductive Item where
+  | obj (n : Nat)
+  | mat (n : Nat)
+  deriving DecidableEq, Repr
+
+/-- `Composite.iterChildrenWithMaterials(*args)` / `getChildren(includeMaterials=True)`: every child of the
+traversal followed by its material if it has one (`getattr(c, "material", None) is not None`: exactly the
+Components) -/
+def getChildrenWithMaterials (s : St) (fuel : Nat) (deep : Bool) (g : Int) (pred : Option (Nat → Bool)) (n : Nat) :
+    Option (List Item) :=
+  (iterChildrenP s fuel deep g pred n).map
+    (fun l => l.flatMap (fun c => if s.kind c = kComponent then [Item.obj c, Item.mat c] else [Item.obj c]))
+
 /-- TypeSpec: None | one Flags value | a list of Flags values -/
 inductive Spec where
   | none
@@ -216,6 +276,46 @@ def getAncestor (s : St) : Nat → (Nat → Bool) → Nat → Nat → Option (Na
     match s.parent n with
     | none => none
     | some p => getAncestor s f fn p (d + 1)
+
+/-- `ArmiObject.getAncestorWithFlags(typeSpec, exactMatch)`: its own recursion up the parent chain (it does not go
+through `getAncestor`) -/
+def getAncestorWithFlags (s : St) : Nat → Spec → Bool → Nat → Option Nat
+  | 0, _, _, _ => none
+  | f + 1, spec, exact, n =>
+    if hasFlags (s.flags n) spec exact then some n else
+    match s.parent n with
+    | none => none
+    | some p => getAncestorWithFlags s f spec exact p
+
+/-- `ArmiObject.getChildrenWithFlags(typeSpec, exactMatch)` =
+`list(self.iterChildren(predicate=lambda o: o.hasFlags(typeSpec, exactMatch)))` -/
+def getChildrenWithFlags (s : St) (fuel : Nat) (spec : Spec) (exact : Bool) (n : Nat) : List Nat :=
+  (iterChildrenP s fuel false 1 (some (fun o => hasFlags (s.flags o) spec exact)) n).getD []
+
+/-- `ArmiObject.getChildrenOfType(typeName)` = `list(self.iterChildren(predicate=lambda o: o.getType() == typeName))` -/
+def getChildrenOfType (s : St) (fuel : Nat) (t : Nat) (n : Nat) : List Nat :=
+  (iterChildrenP s fuel false 1 (some (fun o => s.typ o == t)) n).getD []
+
+/-- `Assembly.getFirstBlock(typeSpec, exact)`: `iter(self)` if `typeSpec is None` else
+`iterChildrenWithFlags(typeSpec, exact)`; the first item or None -/
+def getFirstBlock (s : St) (fuel : Nat) (spec : Spec) (exact : Bool) (n : Nat) : Option Nat :=
+  match spec with
+  | .none => (s.kids n).head?
+  | sp => (getChildrenWithFlags s fuel sp exact n).head?
+
+/-- `Assembly.getFirstBlockByType(typeName)`: `next(filter(lambda b: b.getType() == typeName, self))` or None -/
+def getFirstBlockByType (s : St) (t : Nat) (n : Nat) : Option Nat :=
+  (pyFilter s.truthy (some (fun o => s.typ o == t)) (s.kids n)).head?
+
+/-- `Composite.removeAll` as written: `for c in self.getChildren()[:]: self.remove(c)` -- the list walked is
+the answer of the (predicate-less) traversal query, not the raw child list -/
+def removeAllCode (s : St) (p : Nat) : St × Bool :=
+  seqOps (fun t c => remove t p c) s ((getChildren s (s.next + 1) false 1 none p).getD [])
+
+/-- `Composite.setChildren` as written: `self.removeAll(); for c in items: self.add(c)` -/
+def setChildrenCode (s : St) (p : Nat) (items : List Nat) : St × Bool :=
+  let r := removeAllCode s p
+  if r.2 then seqOps (fun t c => add t p c) r.1 items else r
 
 /-! ### pickle / deepcopy
 `__getstate__` strips the root's parent (and `Grid.__getstate__` the grid's armiObject, a locator's
@@ -255,6 +355,7 @@ def copyWith (s : St) (L : List Nat) : St :=
     kind := fun x => if isNew x then s.kind (orig x) else s.kind x
     flags := fun x => if isNew x then s.flags (orig x) else s.flags x
     typ := fun x => if isNew x then s.typ (orig x) else s.typ x
+    truthy := fun x => if isNew x then s.truthy (orig x) else s.truthy x
     next := base + L.length
     nextGrid := gb + L.length }
 
